@@ -132,6 +132,13 @@ impl VMMap for Map32 {
             self_mut.prev_link[head.chunk_index()] = chunk;
         }
         debug_assert!(self.prev_link[chunk as usize] == 0);
+        #[cfg(mmtk_verif)]
+        crate::util::verif::rt::event(
+            crate::util::verif::rt::ev::CHUNK_ALLOC,
+            rtn.as_usize(),
+            chunks,
+            descriptor.get_index(),
+        );
         rtn
     }
 
@@ -285,6 +292,13 @@ impl Map32 {
     fn free_contiguous_chunks_no_lock(&self, chunk: i32) -> usize {
         unsafe {
             let chunks = self.mut_self().region_map.free(chunk, false);
+            #[cfg(mmtk_verif)]
+            crate::util::verif::rt::event(
+                crate::util::verif::rt::ev::CHUNK_FREE,
+                conversions::chunk_index_to_address(chunk as usize).as_usize(),
+                chunks as usize,
+                0,
+            );
             self.mut_self().total_available_discontiguous_chunks += chunks as usize;
             let next = self.next_link[chunk as usize];
             let prev = self.prev_link[chunk as usize];
